@@ -11,7 +11,7 @@ import decimal
 import math
 import uuid
 
-from Pyro5 import serializers, config, errors
+from Pyro5 import serializers, config, errors, core
 from pysym.runner import Spec
 from pysym.api import And, Or, Not, Implies, eq
 from pysym import env
@@ -205,6 +205,40 @@ def _reset():
     default_reset()
 
 
+def h_interrupted(S, B):
+    """the serializer objects are shared by all threads of a process.  While one thread serialises call A it can be
+    interrupted at any statement of the serializer's own code (dumpsCall, and the default() fallback the codec calls back
+    for values it cannot write itself) and another thread serialises a complete value B in between.  Both still arrive as
+    what was sent: serialising keeps no state between (or across) messages."""
+    from pysym.api import statement_lines
+    sname = S.choice("serializer", B["SERIALIZERS"])
+    ser = serializers.serializers[sname]
+    fns = [type(ser).dumpsCall] + ([type(ser).default] if hasattr(type(ser), "default") else []) + \
+          ([type(ser).convert_obj_into_marshallable] if hasattr(type(ser), "convert_obj_into_marshallable") else [])
+    fn = S.choice("interrupted_function", fns)
+    at = S.choice("interrupted_before_line", statement_lines(fn))
+    big = S.int("A.big", 2 ** 64, 2 ** 70)
+    argA = [{"n": big}, set([1, 2, 3]), (4, 5)] if sname != "marshal" else [{"n": big}, set([1, 2, 3]), core.URI("PYRO:o@h:1")]
+    valB = ["B", set([7, 8]), 2 ** 65 + 1]
+    got = {}
+
+    def serialise_B():
+        got["B"] = attempt(lambda: ser.loads(ser.dumps(valB)))
+    with S.preempting(fn, at, serialise_B):
+        wireA = attempt(lambda: ser.dumpsCall("obj", "method", argA, {"k": argA[1]}))
+    S.cover("interrupted" if "B" in got else "not-reached")
+    S.check("interrupted-call-serialises", wireA[0] == "value")
+    if wireA[0] != "value":
+        return
+    rA = attempt(lambda: ser.loadsCall(wireA[1]))
+    rPlain = attempt(lambda: ser.loadsCall(ser.dumpsCall("obj", "method", argA, {"k": argA[1]})))
+    S.check("interrupted-call-arrives-like-an-undisturbed-one", And(rA[0] == rPlain[0], same(rA[1], rPlain[1])) if rA[0] == "value" and rPlain[0] == "value" else rA[0] == rPlain[0])
+    if "B" in got:
+        rB = attempt(lambda: ser.loads(ser.dumps(valB)))
+        S.check("interrupting-value-arrives-like-an-undisturbed-one", got["B"][0] == rB[0] and (got["B"][0] != "value" or same(got["B"][1], rB[1])))
+    S.observe("reached", "B" in got)
+
+
 INTERPRET_MODULES = ["harness.codecs"]
 STUBS = codecs.stubs()
 
@@ -217,4 +251,8 @@ SPECS = [
                  "check:json-msgpack-deliver-a-set-as-the-list-of-its-members", "check:batch-call-form-serialises-like-a-plain-call"],
          native_patch=env.native_env, reset=_reset,
          desc="a value (15 leaf kinds: symbolic unbounded int incl. beyond 64 bit and beyond 70 decimal digits, symbolic bool, symbolic string of any code points, floats incl. inf/nan, bytes, complex, uuid, decimal, date, datetime) bare or inside list/tuple/dict/nested/set/frozenset, sent as positional argument, keyword argument and result through each serializer's real dumpsCall/loadsCall/dumps/loads with the codec libraries modelled at their API"),
+    Spec("interrupted", h_interrupted, {"quick": {"SERIALIZERS": SERIALIZERS}, "thorough": {"SERIALIZERS": SERIALIZERS}},
+         covers=["interrupted", "check:interrupted-call-arrives-like-an-undisturbed-one", "check:interrupting-value-arrives-like-an-undisturbed-one"],
+         native_patch=env.native_env, reset=_reset,
+         desc="a call being serialised (arguments with an integer beyond 64 bit, a set, a tuple/URI) is interrupted before any one statement of the serializer's dumpsCall / default / convert_obj_into_marshallable while a complete other value is serialised and decoded (another thread's work scheduled at that point); both arrive like undisturbed ones"),
 ]
